@@ -588,7 +588,7 @@ Proof.
     + apply (f_equal head (fset_same (grp g) k (set_head (grp g k) HSent))).
     + eapply GIc_sent; eauto.
     + intros e Hin. destruct (a10 _ _ _ _ _ _ H _ _ _ Eh Hin) as [Hq Hg]. rewrite Hq. auto.
-  - cbn [fst]. apply GI_vdec. exact H.
+  - destruct (malive g || negb (mvheld g)); cbn [fst]; [exact H|]. apply GI_vdec. exact H.
 Qed.
 
 Lemma is_sender_spec s : is_sender s = true -> s = TSender.
@@ -605,14 +605,14 @@ Proof.
     assert (Hnew : forall ms, ms = mstate g ->
       GI (fst (let k := ngrp g in
        let newg0 := fun r : nat => {| gkind := kd; refs := r; head := HList []; linked := false; vheld := true; gphase := 0; gown := 0 |} in
-       let snd_tok := {| tgrp := k; treq := nreq g; tauto := false; tuse := false; tst := TSender |} in
+       let snd_tok := {| tgrp := k; treq := nreq g; tauto := false; tuse := false; tstarted := false; tst := TSender |} in
        let gv := with_val g (S (vrefs g)) (vfreed g) in
        match ms with
        | Some p =>
            let g1 := upd_grp (upd_grp gv p (set_linked (grp g p) true)) k (newg0 3) in
            let g2 := new_tok (with_ngrp g1 (S k)) snd_tok in
            let tmp := ntok g2 in
-           let g3 := new_tok g2 {| tgrp := p; treq := 0; tauto := false; tuse := false; tst := TTemp t |} in
+           let g3 := new_tok g2 {| tgrp := p; treq := 0; tauto := false; tuse := false; tstarted := false; tst := TTemp t |} in
            (with_mutex g3 (Some k) kd true (S (nreq g)), [WRel tmp])
        | None =>
            let g1 := upd_grp gv k (newg0 2) in
